@@ -27,11 +27,11 @@ def model(chk, nq, maxg, rule, allow, expect_ok, dump):
     return wd, res, cex
 
 
-def replay(chk, wd, res, nq, allow, frac, tag):
+def replay(chk, wd, res, nq, allow, frac, tag, two_qubit_only=False):
     ctx = {"nq": nq, "allow_ps": allow, "seed": chk.seed}
     n = 0
     for r in replay_engine.replay_dump(res.dump, "harness.adapters.converter", "worker", ctx, frac=frac, seed=chk.seed, batch=20,
-                                       keep=lambda t: "/\\ pc = 1" in t and '/\\ phase = "build"' not in t):
+                                       keep=lambda t: "/\\ pc = 1" in t and '/\\ phase = "build"' not in t and not (two_qubit_only and '"cc' in t)):
         n += 1
         multi3 = any(len(g[1]) == 3 for g in r["gates"])
         chk.count(key=tag + repr(r["gates"]) + str(allow), nontrivial=len(r["gates"]) >= 2)
@@ -63,6 +63,10 @@ def run(tier):
             wd, res, _ = model(chk, nq, maxg, "nm1", allow, True, True)
             replay(chk, wd, res, nq, allow, frac if allow else frac / 2, "nq%d_g%d_%s" % (nq, maxg, "ps" if allow else "nops"))
             tlc.cleanup("C12_nq%d_g%d_nm1_%s" % (nq, maxg, "ps" if allow else "nops"))
+    # five qubits: gates between qubits at distance 4 (routing through three intermediate qubits); two-qubit gates only, post-selected variant
+    wd, res, _ = model(chk, 5, 2 if th else 1, "nm1", True, True, True)
+    replay(chk, wd, res, 5, True, 0.05 if th else 1.0, "nq5_ps", two_qubit_only=True)
+    tlc.cleanup("C12_nq5_g%d_nm1_ps" % (2 if th else 1))
     if th:
         model(chk, 4, 4, "nm1", True, True, False)
         tlc.cleanup("C12_nq4_g4_nm1_ps")
